@@ -110,7 +110,10 @@ def gs_post(ctx, st, result):
         ctx.oblige("post", "key-holds-the-chosen-name" + tag, after.get(d["dest"]) == c)
         ctx.oblige("post", "returned-parser-is-the-chosen-one's" + tag, isinstance(parsers_out, list) and len(parsers_out) == 1 and parsers_out[0] is d["parsers"].get(c))
         others = [nm for nm in d["names"] if nm != c and isinstance(after.get(d["prefix"] + nm), Rec)]
-        if c in d["parsers"]:  # (an undeclared name is rejected later by validation; the clause is about a selected subcommand)
+        # a name that is not a declared subcommand selects nothing: it is an error in every mode (it used to come back with a None parser when the subcommand is
+        # optional or the call lenient, and the callers then failed with AttributeError - C03; fixed)
+        ctx.oblige("post", "a-name-that-is-not-a-declared-subcommand-is-never-returned-as-the-choice" + tag, c in d["parsers"], note=f"chosen={c!r}")
+        if c in d["parsers"]:
             ctx.oblige("post", "no-section-of-another-subcommand-remains" + tag, others == [], note=f"chosen={c!r} sections-before={sorted(d['sections'])} remaining={others}")
         if c in d["sections"]:
             ctx.oblige("post", "chosen-section-kept" + tag, after.get(d["prefix"] + c) is d["sections"][c])
@@ -130,7 +133,7 @@ def gs_raises(ctx, st, exc):
     if exc.cls != "NSKeyError" or exc.origin in ("cfg[]", "del cfg[]"):
         ctx.oblige("raises", f"only-the-required-subcommand-error(got {exc.cls}@{exc.origin})" + tag, False)
         return
-    ctx.oblige("raises", "NSKeyError=>required-failing-mode-and-nothing-valid-chosen" + tag, d["fail"] and d["required"] and c not in d["parsers"])
+    ctx.oblige("raises", "NSKeyError=>an-undeclared-name-was-given,or(required,failing mode)nothing-was-chosen" + tag, (c is not None and c not in d["parsers"]) or (d["fail"] and d["required"] and c is None))
 
 
 # ------------------------------------------------------------------------------------- handle_subcommands
